@@ -76,7 +76,7 @@ func Verify(manifest []byte) (*ManifestSignature, error) {
 	if err != nil {
 		return nil, err
 	}
-	if token2 := asi.SelectAttrValue("publicKeyToken", ""); token2 != token {
+	if token2 := unprefixedAttr(asi, "publicKeyToken"); token2 != token {
 		return nil, fmt.Errorf("publicKeyToken mismatch: expected %s, got %s", token, token2)
 	}
 	sig := pkcs7.Signature{Intermediates: secondary.Certificates, Certificate: secondary.Leaf()}
